@@ -685,6 +685,29 @@ where
     }
 }
 
+/// an untyped table handle of either kind: what it answers (len and every field of stats()), or the error
+pub enum UntypedHandle {
+    T(redb::ReadOnlyUntypedTable),
+    M(redb::ReadOnlyUntypedMultimapTable),
+}
+
+impl UntypedHandle {
+    fn answers(&self) -> J {
+        use redb::ReadableTableMetadata;
+        let r = match self {
+            UntypedHandle::T(t) => t.len().and_then(|l| t.stats().map(|s| (l, s))),
+            UntypedHandle::M(t) => t.len().and_then(|l| t.stats().map(|s| (l, s))),
+        };
+        match r {
+            Ok((l, s)) => json!({"ok": [l, s.tree_height(), s.leaf_pages(), s.branch_pages(), s.stored_bytes(), s.metadata_bytes(), s.fragmented_bytes()]}),
+            Err(e) => {
+                let e: redb::Error = e.into();
+                json!({"err": err_name(&e)})
+            }
+        }
+    }
+}
+
 pub const TABLE_TYPES: [(&str, &str); 6] =
     [("u64", "bytes"), ("u64", "u64"), ("bytes", "bytes"), ("bytes", "u64"), ("str", "bytes"), ("str", "u64")];
 pub const MULTIMAP_TYPES: [(&str, &str); 4] = [("u64", "u64"), ("u64", "bytes"), ("bytes", "bytes"), ("bytes", "u64")];
@@ -914,6 +937,8 @@ pub struct Exec {
     readers: HashMap<String, ReadTransaction>,
     sps: HashMap<String, Savepoint>,
     its: HashMap<String, Box<dyn HeldIter>>,
+    /// untyped table handles kept beyond their read transaction, with what they answered first
+    uts: HashMap<String, (UntypedHandle, J)>,
     pub panics: u64,
     /// fault-injection runs replay a script recorded without faults: steps whose handle does not
     /// exist (because an earlier step failed) are skipped instead of being a script error
@@ -949,6 +974,7 @@ impl Exec {
             readers: HashMap::new(),
             sps: HashMap::new(),
             its: HashMap::new(),
+            uts: HashMap::new(),
             panics: 0,
             tolerant: false,
         }
@@ -978,6 +1004,7 @@ impl Exec {
             drop(self.take_txn());
         }
         self.its.clear();
+        self.uts.clear();
         self.readers.clear();
         self.sps.clear();
         if self.db.take().is_some() {
@@ -1008,8 +1035,10 @@ impl Exec {
             }
             "br" => self.db.is_some() && !self.readers.contains_key(s("h")),
             "dr" => self.readers.contains_key(s("h")),
-            "dump" | "hold" => self.readers.contains_key(s("src")),
-            "itnext" | "itdrop" => self.its.contains_key(s("it")),
+            "dump" | "hold" | "uhold" => self.readers.contains_key(s("src")),
+            "itnext" => self.its.contains_key(s("it")),
+            "itdrop" => self.its.contains_key(s("it")) || self.uts.contains_key(s("it")),
+            "ustats" => self.uts.contains_key(s("it")),
             "spdrop" => self.sps.contains_key(s("s")),
             "compact" | "integrity" | "acct" => self.wtx.is_none() && self.db.is_some(),
             _ => true,
@@ -1292,8 +1321,44 @@ impl Exec {
                 Self::with_r(op, r)
             }
             "itdrop" => {
-                self.its.remove(op["it"].as_str().unwrap()).expect("HARNESS: unknown iterator");
+                let it = op["it"].as_str().unwrap();
+                if self.its.remove(it).is_none() {
+                    self.uts.remove(it).expect("HARNESS: unknown iterator");
+                }
                 vec![op.clone()]
+            }
+            "uhold" => {
+                use redb::{MultimapTableHandle, TableHandle};
+                let (src, n, kind) = (op["src"].as_str().unwrap(), op["n"].as_str().unwrap(), op["kind"].as_str().unwrap());
+                let rt = &self.readers[src];
+                let r = (|| -> Result<Option<UntypedHandle>, redb::Error> {
+                    if kind == "t" {
+                        match rt.list_tables()?.find(|h| h.name() == n) {
+                            Some(h) => Ok(Some(UntypedHandle::T(rt.open_untyped_table(h)?))),
+                            None => Ok(None),
+                        }
+                    } else {
+                        match rt.list_multimap_tables()?.find(|h| h.name() == n) {
+                            Some(h) => Ok(Some(UntypedHandle::M(rt.open_untyped_multimap_table(h)?))),
+                            None => Ok(None),
+                        }
+                    }
+                })();
+                match r {
+                    Ok(Some(u)) => {
+                        let first = u.answers();
+                        self.uts.insert(op["it"].as_str().unwrap().to_string(), (u, first));
+                        Self::with_r(op, ok(json!(0)))
+                    }
+                    Ok(None) => vec![json!({"e": "note", "what": "table not in the reader's list", "step": "uhold"})],
+                    Err(e) => Self::with_r(op, er(e)),
+                }
+            }
+            "ustats" => {
+                let (u, first) = &self.uts[op["it"].as_str().unwrap()];
+                let mut evs = Self::with_r(op, u.answers());
+                evs[0]["first"] = first.clone();
+                evs
             }
             "spe" => {
                 let r = match self.txn().ephemeral_savepoint() {
